@@ -4,6 +4,8 @@
 jobs="${1:-3}"; glob="${2:-*}"
 ls -d /verif/seeded/$glob/ | xargs -P "$jobs" -I{} bash -c '
   d={}; n=$(basename $d); p=${n%-*}
+  # a change that is detected by the check of a neighbouring property says so in its meta.json
+  q=$(python3 -c "import json,sys; print(json.load(open(sys.argv[1])).get(\"detected_by_neighbouring_check\",\"\"))" ${d}meta.json 2>/dev/null); [ -n "$q" ] && p=$q
   out=$(nice -n 5 /verif/tools/mutant.sh ${d}patch.diff $p quick 2>&1 | tail -3)
   rc=$(echo "$out" | grep -o "mutant exit=[0-9]*" | cut -d= -f2)
   echo "$n rc=$rc $(echo "$out" | grep -c "DOES NOT APPLY")"'
